@@ -16,6 +16,15 @@ func (c08) Count(tier string) int {
 
 func (c08) Gen(rng *rand.Rand, tier string, idx int) Case {
 	var c Case
+	if idx%12 == 11 {
+		p := [][2]int64{{2, 1}, {3, 2}, {5, 5}, {2, 3}, {4, 1}}[rng.Intn(5)]
+		u := []int64{500, 1000}[rng.Intn(2)]
+		size, slide := p[0]*u, p[1]*u
+		o := []int64{0, slide, size, 2*size + 1}[rng.Intn(4)]
+		c.Cfg = [][]string{{"kind", "sqlsliding"}, {"size", itoa(size)}, {"slide", itoa(slide)}, {"ooo", itoa(o)}, {"late", "0"}, {"now", "0"}}
+		genSQLWindow(rng, &c, slide, o)
+		return c
+	}
 	// (size, slide): slide | size, slide ∤ size, slide = size, slide > size
 	pairs := [][2]int64{{2, 1}, {3, 2}, {5, 5}, {2, 3}, {7, 3}, {10, 5}, {4, 1}}
 	p := pairs[rng.Intn(len(pairs))]
@@ -39,4 +48,9 @@ func (c08) Gen(rng *rand.Rand, tier string, idx int) Case {
 	return c
 }
 
-func (c08) Exec(c Case) [][][]string { return execWindow(c) }
+func (c08) Exec(c Case) [][][]string {
+	if isSQLWindowCase(c) {
+		return execSQLWindow(c)
+	}
+	return execWindow(c)
+}
